@@ -270,6 +270,12 @@ def gen(rng, tier, i):
             if a.get("id", "").startswith("t") and a.get("kind") in ("tcp_client", "quic_client") and rng.random() < 0.6:
                 a["start_ms"] = a.get("start_ms", 0) + rng.choice([500, 3000, 25000])
                 late += 1
+    # a CONNECT head with a whitespace-only line in it: whatever the proxy makes of it (refuse it, ignore the line), the header
+    # lines behind it are part of the head - they must never travel down the tunnel
+    if lk in ("http", "https") and not banner_mode and rng.random() < 0.1:
+        tgt = ("[%s]:%d" % (ohost, oport)) if ":" in ohost else "%s:%d" % (ohost, oport)
+        odd = ("CONNECT %s HTTP/1.1\r\nHost: %s\r\n%s\r\nX-Secret: %s\r\nX-More: %s\r\n\r\n" % (tgt, tgt, rng.choice(["   ", " ", "\t"]), "s" * 40, "m" * 40)).encode()
+        sc.add_client("odd0", li, [send(odd, on_fail="continue"), op("recv_eof", timeout_ms=20000, on_fail="continue", keep=0)], start_ms=rng.choice([0, 10, 60]))
     sc.meta = {"no_generic_fill_shrink": True, "keep_ops": True, "cls": "%s>%s" % (lk, ck), "casualties": casualties, "cfgkey": "%s>%s/b%d/%s/%s" % (lk, ck, bufsz, chaos_name, "splice" if splice else "buf"),
                "tunnels": tunnels, "lk": lk, "ck": ck, "splice": bool(splice), "chaos": chaos_name}
     sc.settle_ms = 0
